@@ -395,6 +395,34 @@ func (p *Program) FieldOpt(path, typ, field string) *types.Var {
 func (p *Program) Field(path, typ, field string) *types.Var {
 	v := p.FieldOpt(path, typ, field)
 	if v == nil {
+		// the field may have been grouped with others into a small struct of the
+		// same package (`width, height int` -> `size frameSize`): exactly one
+		// field of that name one level down
+		if n := p.NamedType(path, typ); n != nil {
+			if st, ok := n.Underlying().(*types.Struct); ok {
+				var found []*types.Var
+				for i := 0; i < st.NumFields(); i++ {
+					inner, ok := st.Field(i).Type().(*types.Named)
+					if !ok || inner.Obj().Pkg() == nil || inner.Obj().Pkg().Path() != path || anchorTypes[path+"."+inner.Obj().Name()] {
+						continue
+					}
+					ist, ok := inner.Underlying().(*types.Struct)
+					if !ok {
+						continue
+					}
+					for j := 0; j < ist.NumFields(); j++ {
+						if ist.Field(j).Name() == field {
+							found = append(found, ist.Field(j))
+						}
+					}
+				}
+				if len(found) == 1 {
+					return found[0]
+				}
+			}
+		}
+	}
+	if v == nil {
 		broken("anchor: field %s.%s.%s not found", path, typ, field)
 	}
 	return v
